@@ -216,6 +216,13 @@ fn exec(ctx: &mut RunCtx, w: &mut World, op: &Op) -> Step<()> {
                         format!("texture {}: {}x{} (width x height), packed {}x{}", i, g.1, g.2, t.width, t.height),
                     );
                 }
+                if g.3.len() != t.width * t.height * 4 {
+                    return ctx.violation(
+                        "returns_packed_textures",
+                        format!("{}|pixel_data_size", kind),
+                        format!("texture {} is {}x{} but its pixel data holds {} bytes instead of {} (4 per pixel)", i, t.width, t.height, g.3.len(), t.width * t.height * 4),
+                    );
+                }
                 match reference_pixels(t, kind == "tpl") {
                     Some(px) => {
                         if px != g.3 {
